@@ -1,6 +1,7 @@
 package pmodel
 
 import (
+	"bytes"
 	"fmt"
 
 	"google.golang.org/protobuf/encoding/protowire"
@@ -191,5 +192,41 @@ func injectUnknown(md protoreflect.MessageDescriptor, b []byte, l *lcg) []byte {
 		out = append(out, raw...)
 	}
 	maybe()
+	return out
+}
+
+// Zap returns a copy of m in which every string and bytes value (not map keys) holds the same number of
+// 'Z' bytes: a message of the same shape whose encodings differ from m's wherever m carries text.
+func Zap(m protoreflect.Message) protoreflect.Message {
+	out := m.New()
+	m.Range(func(fd protoreflect.FieldDescriptor, v protoreflect.Value) bool {
+		zs := func(fd protoreflect.FieldDescriptor, v protoreflect.Value) protoreflect.Value {
+			switch fd.Kind() {
+			case protoreflect.StringKind:
+				return protoreflect.ValueOfString(string(bytes.Repeat([]byte{'Z'}, len(v.String()))))
+			case protoreflect.BytesKind:
+				return protoreflect.ValueOfBytes(bytes.Repeat([]byte{'Z'}, len(v.Bytes())))
+			case protoreflect.MessageKind, protoreflect.GroupKind:
+				return protoreflect.ValueOfMessage(Zap(v.Message()))
+			}
+			return v
+		}
+		switch {
+		case fd.IsMap():
+			mp := out.Mutable(fd).Map()
+			v.Map().Range(func(k protoreflect.MapKey, e protoreflect.Value) bool {
+				mp.Set(k, zs(fd.MapValue(), e))
+				return true
+			})
+		case fd.IsList():
+			l := out.Mutable(fd).List()
+			for i := 0; i < v.List().Len(); i++ {
+				l.Append(zs(fd, v.List().Get(i)))
+			}
+		default:
+			out.Set(fd, zs(fd, v))
+		}
+		return true
+	})
 	return out
 }
